@@ -92,8 +92,8 @@ Proof.
   intros Hn. destruct n as [|n]; [lia|]. unfold wrap1. cbn [repeat hd].
   assert (HL : last (v :: repeat v n) d = v).
   { clear Hn. induction n as [|n IH]; [reflexivity|]. exact IH. }
-  rewrite HL. rewrite repeat_snoc. simpl. f_equal. f_equal.
-  replace (n + 2)%nat with (S (S n)) by lia. reflexivity.
+  rewrite HL. change ((v :: repeat v n) ++ [v]) with (repeat v (S n) ++ [v]). rewrite repeat_snoc.
+  replace (S n + 2)%nat with (S (S (S n))) by lia. reflexivity.
 Qed.
 Lemma removelast_repeat {A} (v : A) n : removelast (repeat v (S n)) = repeat v n.
 Proof. induction n as [|n IH]; [reflexivity|]. change (repeat v (S (S n))) with (v :: repeat v (S n)).
@@ -111,7 +111,8 @@ Proof.
   assert (Hl' : length valid' = n) by (unfold valid'; destruct restrict; [exact Hl | rewrite map_length; exact Hl]).
   destruct per; [|apply sdc_const; assumption].
   destruct n as [|n].
-  - destruct valid'; [reflexivity | discriminate].
+  - destruct valid'; [|discriminate]. change (wrap1 0 (repeat v 0)) with (repeat v 0).
+    change (wrap1 true []) with (@nil bool). rewrite sdc_const by (try exact Ho; reflexivity). reflexivity.
   - rewrite wrap1_repeat by lia. rewrite sdc_const; [apply crop1_repeat | exact Ho |].
     destruct valid' as [|b t]; [discriminate|]. unfold wrap1. simpl. rewrite app_length. simpl in *. lia.
 Qed.
